@@ -207,6 +207,17 @@ def regen_roots():
     gen_write("AsmjitVerif.lean", "".join("import %s\n" % m for m in mods))
 
 
+def regen_all_gen():
+    import importlib
+    for f in sorted((VERIF / "tools" / "props").glob("c[0-9][0-9].py")):
+        try:
+            mod = importlib.import_module("props." + f.stem)
+            if hasattr(mod, "generate"):
+                mod.generate()
+        except Exception as e:
+            log("[gen] %s.generate failed: %s" % (f.stem, e))
+
+
 def lake_build(targets, timeout=3600):
     """Returns (ok, output). Serialised: lake is not safe to run twice in one workspace."""
     regen_roots()
@@ -214,6 +225,12 @@ def lake_build(targets, timeout=3600):
         t0 = time.time()
         p = sh(["lake", "build", *targets], cwd=LEAN, timeout=timeout)
         out = p.stdout + p.stderr
+        if p.returncode != 0 and re.search(r"AsmjitVerif[./]Gen[./]\w+", out) and ("no such file" in out or "does not exist" in out
+                                                                                    or "unknown module" in out or "bad import" in out):
+            # a git-ignored Gen/ file of some other property is missing (fresh worktree): regenerate all of them once
+            regen_all_gen()
+            p = sh(["lake", "build", *targets], cwd=LEAN, timeout=timeout)
+            out = p.stdout + p.stderr
         log("[lake] build %s: %s in %.1fs" % (" ".join(targets), "ok" if p.returncode == 0 else "FAILED", time.time() - t0))
         return p.returncode == 0, out
 
